@@ -89,6 +89,22 @@ def check_bounds(case, spec, r, ck):
             if abs(s.l[i] - lo) > 1e-9 * (1 + abs(lo)) or abs(s.u[i] - hi) > 1e-9 * (1 + abs(hi)):
                 ok = False; bad = {'var': i, 'name': name, 'l': float(s.l[i]), 'u': float(s.u[i]), 'want_l': float(lo), 'want_u': float(hi), 'elapsed': float(delta[i])}
                 break
+        if a.get('freq') and a['type'] in ('SimpleContract', 'Contract') and not isinstance(a.get('max_cap'), dict) and not isinstance(a.get('min_cap'), dict):
+            # coarse variable spread over fine steps: the volume booked to every FINE step respects rate x that step's real length
+            dfc = m['disp_factor'].astype(float).fillna(1.).values if 'disp_factor' in m.columns else np.ones(len(m))
+            okf = True; badf = None
+            for idx, t, w in zip(m.index, m['time_step'], dfc):
+                i = int(idx); t = int(t)
+                if vn.get(i) not in ('disp', 'disp_in', 'disp_out'):
+                    continue
+                hi_t = max(0., a['max_cap']) * ck.dt[t] if vn.get(i) != 'disp_in' else 0.
+                lo_t = min(0., a['min_cap']) * ck.dt[t] if vn.get(i) != 'disp_out' else 0.
+                if vn.get(i) == 'disp':
+                    hi_t = a['max_cap'] * ck.dt[t]; lo_t = a['min_cap'] * ck.dt[t]
+                if w * s.u[i] > hi_t + 1e-9 * (1 + abs(hi_t)) or w * s.l[i] < lo_t - 1e-9 * (1 + abs(lo_t)):
+                    okf = False; badf = {'var': i, 'step': t, 'weight': float(w), 'u': float(s.u[i]), 'l': float(s.l[i]), 'limit_hi': float(hi_t), 'limit_lo': float(lo_t), 'dt': float(ck.dt[t])}
+                    break
+            case.check('steps.coarse_volume_per_fine_step_within_rate', okf, nonvacuous=uneq, asset=a['name'], cls=a['type'], freq=a.get('freq'), bad=badf)
         case.check('steps.bounds_are_rate_times_elapsed', ok, asset=a['name'], cls=a['type'], coarse=bool(a.get('freq')), bad=bad)
         case.check('steps.unequal_steps_bounds', ok, nonvacuous=uneq, asset=a['name'], cls=a['type'], coarse=bool(a.get('freq')), bad=bad)
         if a['type'] == 'Storage' and a.get('inflow'):
